@@ -35,6 +35,8 @@ def call_builtin(world, eng, p, h, args, kws):
         trusted('rx.subject.Subject: synchronous fan-out to subscribers in subscription order')
         k = p.ghost.get('n_subjects', 0); p.ghost['n_subjects'] = k + 1
         return [(p, Host('subject', chan=OUTER + 10 * k, name=f'subject{k}'))]
+    if n == 'rxsci.state.state_topology.StateTopology':
+        return [(p, Host('topology', name='topology_new'))]
     if short == 'CompositeDisposable':
         return [(p, Host('disposable', items=list(args)))]
     if short == 'Disposable':
